@@ -281,13 +281,20 @@ func c14RunE2E(prop string, cfg c14RunCfg) *c14Result {
 			limS, limP := w.nStarts+15, w.polls+cfg.pollsFor(2000)
 			deadDrained := func() bool { // an instance that reported broken and then died is still there
 				for _, vm := range w.vms {
-					if dn := atomic.LoadInt64(&vm.deadNs); dn != 0 && vm.destroyed == 0 && time.Now().UnixNano() >= dn {
+					if dn := atomic.LoadInt64(&vm.deadNs); vm.reportFirst && dn != 0 && vm.destroyed == 0 && time.Now().UnixNano() >= dn {
 						return true
 					}
 				}
 				return false
 			}
-			for w.slowInFlight == 0 && !deadDrained() && w.nStarts < limS && w.polls < limP && time.Now().Before(watchdog) {
+			// first choice: a --detach that will stay unanswered for 1.5-3 s
+			for w.longInFlight == 0 && w.nStarts < limS && w.polls < limP && time.Now().Before(watchdog) {
+				w.cond.Wait()
+			}
+			if w.longInFlight > 0 {
+				w.counters["restart_placed_during_long_slow_start"]++
+			}
+			for w.slowInFlight == 0 && !deadDrained() && w.nStarts < limS+10 && w.polls < limP+cfg.pollsFor(1000) && time.Now().Before(watchdog) {
 				w.cond.Wait()
 			}
 			if w.slowInFlight > 0 {
@@ -511,7 +518,7 @@ func c14RunE2E(prop string, cfg c14RunCfg) *c14Result {
 			}
 			sig := fmt.Sprintf("C15:L3:instance-not-released:%s:worker=%s:%s", vm.kind, ws, ib)
 			switch vm.kind {
-			case "never-boots", "reports-broken", "crunch-run-missing", "broken-after", "arv-mount-deadlock", "reports-broken-then-dead", "outage":
+			case "never-boots", "reports-broken", "crunch-run-missing", "broken-after", "arv-mount-deadlock", "reports-broken-then-dead", "outage", "never-answers-slowly", "dies-slowly-while-busy":
 				sig = fmt.Sprintf("C15:L4:faulty-instance-not-destroyed:%s:worker=%s:%s", vm.kind, ws, ib)
 			}
 			w.mu.Lock()
